@@ -766,6 +766,37 @@ func (e *Evaluator) evalBinaryExpr(expr *ExprBinary) (*Cell, error) {
 	}
 }
 
+// existingSpeculative returns the value that now sits where the speculative
+// object spec would be created, or nil when that member is still missing
+func existingSpeculative(spec *Value) *Value {
+	if spec.Tag != ValueNil || spec.ParentObj == nil {
+		return nil
+	}
+
+	parent := spec.ParentObj
+	if parent.Tag == ValueNil {
+		parent = existingSpeculative(parent)
+	}
+	if parent == nil || (parent.Tag != ValueArray && parent.Tag != ValueObj) {
+		return nil
+	}
+
+	var key Value
+	if spec.Str != nil {
+		key = NewString(*spec.Str)
+	} else if spec.Num != nil {
+		key = NewValue(*spec.Num)
+	} else {
+		return nil
+	}
+
+	member, err := parent.GetMember(key)
+	if err != nil || member == nil || member.Value.Tag == ValueNativeFn {
+		return nil
+	}
+	return &member.Value
+}
+
 func (e *Evaluator) createSpeculativeObjects(specObj *Cell) (*Cell, error) {
 	// Speculative objects are how jqawk implements two features:
 	//
@@ -798,7 +829,12 @@ func (e *Evaluator) createSpeculativeObjects(specObj *Cell) (*Cell, error) {
 	}
 
 	var objToSet *Value
-	if parent.Tag == ValueNil {
+	if existing := existingSpeculative(parent); existing != nil {
+		// the parent was missing when the target was evaluated, but something
+		// evaluated since (the right-hand side of the assignment) created it:
+		// store into that, do not replace it
+		objToSet = existing
+	} else if parent.Tag == ValueNil {
 		newParent, err := e.createSpeculativeObjects(NewCell(*parent))
 		if err != nil {
 			return nil, err
@@ -815,6 +851,15 @@ func (e *Evaluator) createSpeculativeObjects(specObj *Cell) (*Cell, error) {
 		objToSet = &newParent.Value
 	} else {
 		objToSet = parent
+	}
+
+	if objToSet.Tag == ValueArray || objToSet.Tag == ValueObj {
+		// and so may be the target itself (a[0] = a[0] = 1): it is the location
+		// to assign to
+		cur, err := objToSet.GetMember(memberToSet)
+		if err == nil && cur != nil && cur.Value.Tag != ValueNativeFn {
+			return cur, nil
+		}
 	}
 
 	cell, err := objToSet.SetMember(memberToSet, specObj)
